@@ -112,26 +112,27 @@ Theorem C16_value_atomic_plain : forall K enc derive hkdf hmac (cs : cstate K) p
 Proof. exact value_atomic_plain. Qed.
 Print Assumptions C16_value_atomic_plain.
 
-(* and an event with per-event wrapper, salt and info keeps its own triple whatever is rotated meanwhile *)
-Theorem C16_value_atomic_event_info : forall K enc derive hkdf hmac (cs : cstate K) pre tid c m post w0 id s i,
-  lookup tid (cs_thr (fst (crun K enc derive hkdf hmac cs pre))) = Some (Some {| o_wrap := Some (derive w0 id); o_salt := Some s; o_info := Some i |}) ->
-  nth_error (snd (crun K enc derive hkdf hmac cs (pre ++ AVal K tid c m :: post))) (length pre)
-    = Some (Some (value_under K enc hkdf hmac (derive w0 id, s, i) c m)).
-Proof. exact value_atomic_event_info. Qed.
-Print Assumptions C16_value_atomic_event_info.
+(* and an event WITH per-event wrapper info fixes its whole triple at the head of Process (wrapper derived from the filter's
+   wrapper of that moment; salt / info its own, else the filter's of that moment): in every schedule, whatever is rotated
+   between its start and a value and whatever other events do, the value is produced under the key in force at its start.
+   Together with C16_value_atomic_plain: every value of every event is protected wholly with one key generation. *)
+Theorem C16_value_atomic_event : forall K enc derive hkdf hmac (cs : cstate K) pre1 tid e pre2 c m post,
+  Forall (not_start K tid) pre2 ->
+  nth_error (snd (crun K enc derive hkdf hmac cs (pre1 ++ AStart K tid (Some e) :: pre2 ++ AVal K tid c m :: post))) (length pre1 + 1 + length pre2)
+    = Some (match key_in_force K derive (fstate_after K (cs_f cs) pre1) (Some e) with
+            | Some t => Some (value_under K enc hkdf hmac t c m) | None => None end).
+Proof. exact value_atomic_event. Qed.
+Print Assumptions C16_value_atomic_event.
 
-(* Full statement of the property: "each individual value is protected wholly with either the old or the new key".  It
-   fails in one corner that value_atomic describes exactly: an event WITH per-event wrapper info but WITHOUT its own
-   salt / info keeps the wrapper derived from the base key it saw when it started and reads the filter's salt / info
-   at each value; a rotation of wrapper and salt between the two gives (old derived wrapper, new salt). *)
-Theorem C16_value_atomic_event_fallback_refuted :
-  exists (sched : list (action tK)) (k : nat),
-    nth_error (snd (crun tK t_enc t_derive t_hkdf t_hmac {| cs_f := st0; cs_thr := [] |} sched)) k
-      = Some (Some (value_under tK t_enc t_hkdf t_hmac (t_derive 1%N [3]%N, [8]%N, []%N) CHmac [1]%N)) /\
-    key_in_force tK t_derive st0 (Some ([3]%N, None, None)) = Some (t_derive 1%N [3]%N, [7]%N, []%N) /\
-    key_in_force tK t_derive (rotate tK st0 (Some 2%N) (Some [8]%N) None) (Some ([3]%N, None, None)) = Some (t_derive 2%N [3]%N, [8]%N, []%N).
-Proof. exact ewi_fallback_mixes_refuted. Qed.
-Print Assumptions C16_value_atomic_event_fallback_refuted.
+(* the schedule that mixed (old derived wrapper, new salt) before the repair of the library (red record and as-was model:
+   notes/redgreen/C16_event_fallback_as_was.v) gives the value under the key in force at the start of the event *)
+Theorem C16_value_atomic_event_fallback_fixed :
+  nth_error (snd (crun tK t_enc t_derive t_hkdf t_hmac {| cs_f := st0; cs_thr := [] |}
+                    [AStart tK 1%N (Some ([3]%N, None, None)); ARot tK (Some 2%N) (Some [8]%N) None; AVal tK 1%N CHmac [1]%N])) 2
+    = Some (Some (value_under tK t_enc t_hkdf t_hmac (t_derive 1%N [3]%N, [7]%N, []%N) CHmac [1]%N)) /\
+  key_in_force tK t_derive st0 (Some ([3]%N, None, None)) = Some (t_derive 1%N [3]%N, [7]%N, []%N).
+Proof. exact ewi_fallback_fixed. Qed.
+Print Assumptions C16_value_atomic_event_fallback_fixed.
 
 (* non-vacuity: a history with an event before rotation, Rotate, an event with per-event info (salt from the filter, info
    its own), a rotation payload, an event after it, and an event with an empty event id *)
